@@ -2,6 +2,7 @@
 package main
 
 import (
+	"runtime/pprof"
 	"flag"
 	"fmt"
 	"os"
@@ -9,6 +10,7 @@ import (
 	"github.com/hashicorp/consul/internal/verifmc/c08"
 	"github.com/hashicorp/consul/internal/verifmc/c08r"
 	"github.com/hashicorp/consul/internal/verifmc/c09"
+	"github.com/hashicorp/consul/internal/verifmc/c11"
 	"github.com/hashicorp/consul/internal/verifmc/c12"
 	"github.com/hashicorp/consul/internal/verifmc/c16"
 	"github.com/hashicorp/consul/internal/verifmc/c17"
@@ -24,6 +26,7 @@ type checkDef struct {
 var checks = map[string]checkDef{
 	"C08": {"exploration", func(c *ev.Ctx) { c08.Run(c); c08r.Run(c) }},
 	"C09": {"exploration", c09.Run},
+	"C11": {"model_checking", c11.Run},
 	"C12": {"exploration", c12.Run},
 	"C16": {"fault_enumeration", c16.Run},
 	"C17": {"model_checking", c17.Run},
@@ -39,10 +42,19 @@ func main() {
 		fmt.Fprintf(os.Stderr, "unknown check %q\n", *id)
 		os.Exit(3)
 	}
+	if pf := os.Getenv("VERIF_CPUPROFILE"); pf != "" {
+		f, err := os.Create(pf)
+		if err == nil {
+			pprof.StartCPUProfile(f)
+			defer pprof.StopCPUProfile()
+		}
+	}
 	c := ev.New(*id, *tier, cd.level)
 	cd.run(c)
 	if os.Getenv("VERIF_GUARD_WORKER") != "" {
 		os.Exit(0)
 	}
-	os.Exit(c.Finish())
+	code := c.Finish()
+	pprof.StopCPUProfile()
+	os.Exit(code)
 }
